@@ -7,7 +7,7 @@ return.  `parse_outputs_inRange` proves every parser output satisfies it;
 What is excluded, and why the parser cannot produce it:
 * an unencoded `|` as a character literal (the loop breaks on `|`; there is no `\|` escape);
 * explicitly encoded characters ≥ 0x110000 (`\U` is limited to 0x10FFFF);
-* quantifiers with `min > max`, quantifiers on `^`/`$`;
+* quantifiers with `min > max` or with a count of `2**32 - 1` or more, quantifiers on `^`/`$`;
 * empty character sets, ranges with `start > end`, overlapping ranges, complemented sets
   with a bound above 0x10000;
 * a group around the union without uniates (the union `UnionExpr([])` is only produced for
@@ -29,10 +29,13 @@ def inRangeRng (r : Rng) : Bool :=
 def inRangeSet (compl : Bool) (rs : List Rng) : Bool :=
   !rs.isEmpty && rs.all inRangeRng && (overlapIdx rs).isNone && (!compl || !rs.any astralInRange)
 
+/-- `min ≤ max`, and both counts below `_TOO_LARGE_REPETITION_COUNT` (Python's `re` refuses the
+rendering of a larger count with an `OverflowError`) -/
 def inRangeQuant (q : Quant) : Bool :=
-  match q.max with
-  | some m => decide (q.min ≤ m)
-  | none => true
+  decide (q.min < tooLargeCount) &&
+  (match q.max with
+   | some m => decide (q.min ≤ m) && decide (m < tooLargeCount)
+   | none => true)
 
 mutual
   def inRangeValue : Value → Bool
